@@ -170,10 +170,11 @@ Definition mon_result (ins : list N) : bool :=
 Definition mon_config (ins : list N) : bool :=
   match ins with
   | [lo; hi; cap; dev_feats; accepted; ro] =>
+      (* capacity and read-only state as the device exposes them; WHICH offered features the driver accepts is C08's clause
+         (monitors 850 / 852), not C14's: an earlier version also demanded here that RO and FLUSH are accepted exactly when
+         offered and would have refused a driver that declines FLUSH, which C14 allows (it then never sends a flush) *)
       (cap =? spec_capacity lo hi)
       && Bool.eqb (n2b ro) (spec_readonly dev_feats)
-      && Bool.eqb (spec_readonly accepted) (spec_readonly dev_feats)
-      && Bool.eqb (spec_may_flush accepted) (spec_may_flush dev_feats)
   | _ => false
   end.
 
@@ -183,7 +184,9 @@ Definition mon_flush (ins : list N) : bool :=
   match ins with
   | [accepted; seen; ty; class; code; st] =>
       if spec_may_flush accepted then (seen =? 1) && (ty =? T_FLUSH) && result_conforms st class code
-      else (seen =? 0) && (class =? 0)
+      (* without the feature nothing is sent; what flush() returns then is not the property's business (blk.rs returns Ok;
+         an earlier version of this monitor demanded Ok) *)
+      else (seen =? 0)
   | _ => false
   end.
 
